@@ -426,3 +426,54 @@ def search(run, info):
         "in_domain_texts_compared_with_model": in_dom,
         "identifiers_checked": nids,
         "exhaustive": False}}
+
+
+def replay(run, rep):
+    """re-evaluates the property on the recorded input: 0 = holds now, 1 = still fails, 2 = cannot be replayed"""
+    inp = rep.get("input", {})
+    t = inp.get("text")
+    if t is None and inp.get("text_hex"):
+        t = bytes.fromhex(inp["text_hex"]).decode("utf-8", "replace")
+    if t is None:
+        return 2
+    op = rep.get("op", "tok")
+    if op == "tok":
+        r = vlib.run_impl([{"id": 0, "op": "tok", "text": hexs(t)}], run.workdir)[0]
+        if "tokens" not in r:
+            return 1
+        return 1 if check_tokens_property(t, r) else 0
+    if op == "parse":
+        r = vlib.run_impl([{"id": 0, "op": "parse", "text": hexs(t), "file": "dir/some file.st", "collect": True}], run.workdir)[0]
+        if "ok" in r:
+            return 1 if check_ids_property(t, "dir/some file.st", r) else 0
+        return 0
+    if op == "analyze":
+        fname = inp.get("file", "u.st")
+        r = vlib.run_impl([{"id": 0, "op": "analyze", "files": [[fname, hexs(t)]]}], run.workdir)[0]
+        planted = (rep.get("planted") or [None])[0]
+        for d in r.get("diags", []):
+            for (f, s, e) in [(d["file"], d["start"], d["end"])] + [tuple(x) for x in d.get("secondary", [])]:
+                if (f, s, e) == ("", 0, 0) and d["code"] != planted:
+                    continue
+                if label_sanity(f, s, e, {fname: t}):
+                    return 1
+            if any(tuple(x) == (d["file"], d["start"], d["end"]) for x in d.get("secondary", [])):
+                return 1
+        return 0
+    if op.startswith("cli-"):
+        cmd = op[4:]
+        binp = vlib.ironplcc_bin()
+        r = vlib.run_impl([{"id": 0, "op": "parse", "text": hexs(t), "file": "x.st"}], run.workdir)[0]
+        if "err" not in r:
+            return 0
+        line, cols = line_col(t.encode("utf-8"), r["err"]["start"])
+        p = os.path.join(run.workdir, "replay_cli.st")
+        with open(p, "w", encoding="utf-8") as f:
+            f.write(t)
+        pr = subprocess.run([binp, cmd, p], stdout=subprocess.PIPE, stderr=subprocess.PIPE, timeout=60)
+        err = re.sub(r"\x1b\[[0-9;]*m", "", pr.stderr.decode("utf-8", "replace"))
+        m = re.search(r"error\[(P\d+)\][^\n]*\n\s*┌─ ([^\n]*?):(\d+):(\d+)", err)
+        if not m:
+            return 1
+        return 0 if (int(m.group(3)) - 1 == line and (int(m.group(4)) - 1) in cols) else 1
+    return 2
